@@ -538,3 +538,22 @@ Lemma aggregate_inside_cidr c x a y :
   plen c <= len -> len <= width (pfam c) ->
   contains c x = true -> contains (ad_pfx (mk_adv x a)) y = true -> contains c y = true.
 Proof. cbv zeta. cbn [mk_adv ad_pfx]. apply aggregate_contained. Qed.
+
+(* ---------------------------------------------------------------- "one route": what really holds *)
+(* The argument list of Session.Set is the concatenation over the Services: an aggregate produced by two
+   Services (same attributes) occurs twice in the LIST - it is one route only as an element of the set;
+   the same prefix with different attributes (two advertisements / pools) stays two distinct routes. *)
+Definition one_route_adv (lp : N) : badv :=
+  {| ba_agg4 := 24; ba_agg6 := 128; ba_lp := lp; ba_comms := []; ba_nodes := [0]; ba_peers := [] |}.
+Definition one_route_hist (lp1 lp2 : N) : list bev :=
+  [ BCfg [ {| pc_name := 1; pc_sels := []; pc_attr := 0; pc_ref := 0 |} ];
+    BSet 0 [V4 169090561] [one_route_adv lp1]; BSet 1 [V4 169090562] [one_route_adv lp2] ].
+
+Lemma equal_aggregates_repeat_in_the_list :
+  exists ad, sess_of (brun 0 (one_route_hist 100 100)) 1 = Some [ad; ad].
+Proof. eexists. vm_compute. reflexivity. Qed.
+
+Lemma same_prefix_different_attributes_two_routes :
+  exists a1 a2, sess_of (brun 0 (one_route_hist 100 200)) 1 = Some [a1; a2] /\
+                ad_pfx a1 = ad_pfx a2 /\ ad_lp a1 <> ad_lp a2.
+Proof. eexists. eexists. vm_compute. split; [reflexivity|]. split; [reflexivity|discriminate]. Qed.
